@@ -26,6 +26,7 @@ _OPEN = (types.SimpleNamespace, _dt.timedelta, _dt.datetime, _dt.date, _dt.time,
 _STD_CLASSES = (_dt.timezone, _dt.datetime, _dt.date, _dt.time, _dt.timedelta)     # standard-library classes whose attributes / constructors may be used
 
 
+import datetime as _datetime
 import functools as _functools
 import operator as _operator
 
@@ -55,6 +56,20 @@ class Stub(types.SimpleNamespace):
 
     def __ge__(self, other):
         return self._eqkey >= other._eqkey
+
+    def __bool__(self):
+        """an object is true unless its class says otherwise: a stub standing for a value of a class that defines truth (timedelta and the
+        classes derived from it, numbers, containers) must say which (`_truth`, or its `_native` value) - never a silent True"""
+        d = vars(self)
+        if "_truth" in d:
+            t = d["_truth"]
+            return bool(t() if callable(t) else t)
+        falsy = (_datetime.timedelta, int, float, str, tuple, list, dict, set, frozenset)
+        if any(isinstance(t, type) and issubclass(t, falsy) for t in d.get("_types", ())):
+            if isinstance(d.get("_native"), falsy):
+                return bool(d["_native"])
+            raise Unsupported("truth value of a stub standing for a value whose class defines truth")
+        return True
 
     __hash__ = object.__hash__
 
@@ -95,7 +110,10 @@ class SuperProxy(Stub):
 
 def _attr(v, name, funcs, depth):
     if isinstance(v, SuperProxy):
-        meths, pfuncs = vars(vars(v)["_obj"])["_super"]
+        nat = vars(vars(v)["_obj"]).get("_super_natives", {})
+        if name in nat:
+            return nat[name]                  # the parent is a class of the standard library: the world says what it answers
+        meths, pfuncs = vars(vars(v)["_obj"]).get("_super", ({}, None))
         if name not in meths:
             raise Unsupported(f"super().{name}: not a method of the parent class in the analysed source")
         fn = meths[name]
@@ -238,7 +256,7 @@ def ev(n: ast.AST, env: dict[str, Any], funcs: dict[str, ast.FunctionDef] | None
                 return getattr(*args)
             if n.func.id == "super" and not args and not kws and n.func.id not in env:
                 me = env.get("self", env.get("cls"))
-                if isinstance(me, Obj) and "_super" in vars(me):
+                if isinstance(me, (Obj, ClassStub)) and ("_super" in vars(me) or "_super_natives" in vars(me)):
                     return SuperProxy(_obj=me)
             if n.func.id == "isinstance" and len(args) == 2:
                 return _isinstance(args[0], args[1])
